@@ -242,6 +242,13 @@ def innermost_se_frame(tb):
 def is_harness_exc(e):
     """True when the innermost frame of the exception is inside /verif: a bug of the
     machinery that surfaced inside a library call, never a finding."""
+    seen = 0
+    x = e
+    while x is not None and seen < 10:
+        if getattr(x, "injected", False):
+            return False  # a fault the simulator injected on purpose (or a consequence of one)
+        x = x.__cause__ or x.__context__
+        seen += 1
     tb = e.__traceback__
     last = None
     while tb is not None:
